@@ -35,6 +35,14 @@ func main() {
 			usage()
 		}
 		os.Exit(runCheck(os.Args[2], os.Args[3], os.Args[4:]))
+	case "replay":
+		if len(os.Args) < 3 {
+			usage()
+		}
+		scratch, _ := os.MkdirTemp("", "jvv-replay-")
+		rc := reng.Replay(os.Args[2], scratch)
+		os.RemoveAll(scratch)
+		os.Exit(rc)
 	case "worker":
 		os.Exit(runWorker(os.Args[2:]))
 	case "dbgtrace":
